@@ -211,6 +211,16 @@ impl OffsetsBase {
         offset
     }
 
+    /// Return the linear index, in the tensor's element sequence, of the
+    /// current iteration position, ie. the index for which
+    /// `offset_from_linear_index` returns the offset that `next` will yield.
+    fn linear_index(&self) -> usize {
+        (0..self.ndim()).fold(0, |index, dim| {
+            let pos = self.pos(dim);
+            index * pos.size() + pos.index()
+        })
+    }
+
     /// Truncate this iterator so that it yields at most `len` elements.
     fn truncate(&mut self, len: usize) {
         // We adjust `self.len` here but not any of the iteration positions.
@@ -303,7 +313,11 @@ impl DoubleEndedIterator for OffsetsBase {
 
         // This is inefficient compared to forward iteration, but that's OK
         // because reverse iteration is not performance critical.
-        let index = self.len - 1;
+        //
+        // The last remaining element is `len - 1` steps after the element at
+        // the current (front) position, which is not the start of the tensor
+        // if the iterator has been advanced or is the right half of a split.
+        let index = self.linear_index() + self.len - 1;
         let offset = self.offset_from_linear_index(index);
         self.len -= 1;
 
